@@ -41,7 +41,7 @@ def run(c):
         c.assume("run-time half only: inputs are well-typed programs of the bounded grammar of spec/Numscript.tla and their "
                  "single-token deletions/duplications, ill-typed variable bindings and missing balances; arbitrary byte "
                  "strings are not covered")
-        c.assume("hang = no result within 10 s for one execution")
+        c.assume("hang = no result within 30 s (10 s + grace period) for one execution")
         c.assume(nc.ASSUME_SCOPE)
         nc.report(ctx, "robust", summ, PREFIX)
 
